@@ -1,0 +1,117 @@
+//go:build verif
+
+// Contracts for package sqlgen, read by /verif/engine (govc). Comment-only.
+package sqlgen
+
+// limitOK(filter, limit): the filter pins every limit column to the limit's value (Go interface
+// equality: same dynamic type and value - stricter than SQL equality, which is the safe direction).
+//@ pred limitOK(filter Filter, limit Filter) = forall k string :: k in limit ==> k in filter && filter[k] == limit[k]
+//@ pred comparableValues(limit Filter) = forall k string :: k in limit ==> comparable(limit[k])
+
+// (If a limit value and the filter value hold the same uncomparable dynamic type, e.g. []byte, the
+// comparison panics; that obligation - safety.ifacecmp - is generated but not claimed by C12: a panic
+// sends nothing to the database.)
+//@ func DB.checkFilterAgainstLimit
+//@   assigns nothing
+//@   ensures err == nil <==> limitOK(filter, limit)
+//@   loop 1 invariant forall k string :: visited[k] ==> k in filter && filter[k] == limit[k]
+
+// colsOK(columns, values, limit): for every limit column the first position of that column carries the limit's value.
+//@ pred firstCol(columns []string, k string, i int) = 0 <= i && i < len(columns) && columns[i] == k && (forall j int :: 0 <= j && j < i ==> columns[j] != k)
+//@ pred colsOK(columns []string, values []interface{}, limit Filter) = forall k string :: k in limit ==> exists i int :: firstCol(columns, k, i) && values[i] == limit[k]
+
+//@ func DB.checkColumnValuesAgainstLimit
+// (values[i] is read for the first matching column: Make*Row build one value per column; the index obligation is not claimed by C12.)
+//@   assigns nothing
+//@   ensures err == nil <==> colsOK(columns, values, limit)
+//@   loop 1 invariant forall k string :: visited[k] ==> exists i int :: firstCol(columns, k, i) && values[i] == limit[k]
+//@   loop 2 invariant -1 <= rangeindex && rangeindex < len(columns) && !ok && valuesV == nil
+//@   loop 2 invariant forall j int :: 0 <= j && j <= rangeindex ==> columns[j] != k
+//@   loop 2 decreases len(columns) - rangeindex
+
+// A successful check means: the shard limit (if any) is satisfied by this filter. The dynamic limit is
+// consulted through user callbacks (GetLimitFilter / ShouldContinueOnError), which the logic cannot see
+// into: err == nil then means "satisfied, or the callback said continue" and is not stated here.
+//@ func DB.checkFilterAgainstLimits
+//@   requires db != nil
+//@   ensures err == nil ==> old(db.shardLimit == nil || limitOK(filter, db.shardLimit))
+
+//@ func DB.checkColumnValuesAgainstLimits
+//@   requires db != nil
+//@   ensures err == nil ==> old(db.shardLimit == nil || colsOK(columns, values, db.shardLimit))
+
+// Sinks: every statement leaves through QueryExecer.{QueryContext,QueryRowContext,ExecContext}, through the
+// wrappers execWithTrace / runExplainQuery, or through the batch function (batchFetch.Invoke). Each public
+// operation must have had a successful limit check on the filter / column values of the very query it sends.
+//@ func DB.BaseQuery
+//@   requires db != nil
+//@   ghost checked bool
+//@   entry ghost checked = false
+//@   call DB.checkFilterAgainstLimits assert arg3 == query.Filter && arg4 == query.Table
+//@   call DB.checkFilterAgainstLimits ghost checked = ret0 == nil
+//@   call Func.Invoke assert checked
+//@   call DB.runExplainQuery assert checked
+//@   call QueryContext assert checked
+
+//@ func DB.Count
+//@   requires db != nil
+//@   ghost checked bool
+//@   entry ghost checked = false
+//@   call DB.checkFilterAgainstLimits assert arg3 == filter
+//@   call DB.checkFilterAgainstLimits ghost checked = ret0 == nil
+//@   call QueryRowContext assert checked
+
+//@ func DB.InsertRow
+//@   requires db != nil
+//@   ghost checked bool
+//@   entry ghost checked = false
+//@   call DB.checkColumnValuesAgainstLimits assert arg3 == query.Columns && arg4 == query.Values
+//@   call DB.checkColumnValuesAgainstLimits ghost checked = ret0 == nil
+//@   call DB.execWithTrace assert checked
+
+//@ func DB.UpsertRow
+//@   requires db != nil
+//@   ghost checked bool
+//@   entry ghost checked = false
+//@   call DB.checkColumnValuesAgainstLimits assert arg3 == query.Columns && arg4 == query.Values
+//@   call DB.checkColumnValuesAgainstLimits ghost checked = ret0 == nil
+//@   call DB.execWithTrace assert checked
+
+//@ func DB.UpdateRow
+//@   requires db != nil
+//@   ghost checked bool
+//@   entry ghost checked = false
+//@   call DB.checkColumnValuesAgainstLimits ghost checked = ret0 == nil
+//@   call DB.execWithTrace assert checked
+
+//@ func DB.DeleteRow
+//@   requires db != nil
+//@   ghost checked bool
+//@   entry ghost checked = false
+//@   call DB.checkColumnValuesAgainstLimits assert arg3 == query.Where.Columns && arg4 == query.Where.Values
+//@   call DB.checkColumnValuesAgainstLimits ghost checked = ret0 == nil
+//@   call DB.execWithTrace assert checked
+
+// InsertRows: every row of a chunk is checked (nchecked counts successful checks since the chunk's query was built)
+// before the chunk's statement is executed.
+//@ func DB.InsertRows
+//@   requires db != nil
+//@   ghost nchecked int
+//@   entry ghost nchecked = 0
+//@   call Schema.MakeBatchInsertRow ghost nchecked = 0
+//@   call DB.checkColumnValuesAgainstLimits assert arg3 == query.Columns
+//@   call DB.checkColumnValuesAgainstLimits ghost nchecked = ite(ret0 == nil, nchecked+1, nchecked)
+//@   call DB.execWithTrace assert nchecked == len(slice)
+//@   loop 3 invariant 0 <= i && i <= len(slice) && nchecked == i
+
+// UpsertRows: every row of a chunk is checked (nchecked counts successful checks since the chunk's query was built)
+// before the chunk's statement is executed.
+//@ func DB.UpsertRows
+//@   requires db != nil
+//@   ghost nchecked int
+//@   entry ghost nchecked = 0
+//@   call Schema.MakeBatchUpsertRow ghost nchecked = 0
+//@   call DB.checkColumnValuesAgainstLimits assert arg3 == query.Columns
+//@   call DB.checkColumnValuesAgainstLimits ghost nchecked = ite(ret0 == nil, nchecked+1, nchecked)
+//@   call DB.execWithTrace assert nchecked == len(slice)
+//@   loop 3 invariant 0 <= i && i <= len(slice) && nchecked == i
